@@ -39,13 +39,44 @@ TxtDefects(v, r) ==
             [op |-> "toktxt", i |-> i, s |-> "0"],
             [op |-> "toktxt", i |-> i, s |-> "2 1.0 1.0"] } : i \in ti }
 
+\* ---- structural defects of one model's tree text with the file layout kept consistent (a complete rendered voice per defect).
+\* Trees are replaced one for one so that the PDF block still matches the number of trees and parsing reaches the tree converter.
+WithRaw(m, txt) == [qs |-> m.qs, trees |-> m.trees, pdfs |-> m.pdfs, raw |-> txt]
+TreeDefectTexts(m, pre, quoted) ==
+  LET good == ModelTreeTxt(m, pre, quoted)
+      qtxt == QsTxt(m.qs)
+      others == Cat([i \in 1..(Len(m.trees) - 1) |-> TreeTxt(m.trees[i + 1], pre, quoted)])
+      first(t) == qtxt \o "\n" \o t \o others          \* replace the first tree by text t
+      st == ToString(m.trees[1].state)
+      q1 == QuestionTable[1].name
+  IN << first("{*}[" \o st \o "]\n{\n}\n"),                                                    \* empty body
+        first("{*}[" \o st \o "]\n{\n \n}\n"),
+        first("{*}[" \o st \o "]\n -5\n"),                                                      \* single leaf holding a node id
+        first("{*}[" \o st \o "]\n{\n 0 NoSuchQuestion \"x_1\" \"x_1\" \n}\n"),                 \* unknown question
+        "QS " \o q1 \o " { \"*\" }\n\n" \o "{*}[" \o st \o "]\n{\n 0 " \o q1 \o " -4 \"x_1\" \n}\n" \o others,        \* dangling node id
+        "QS " \o q1 \o " { \"*\" }\n\n" \o "{*}[" \o st \o "]\n{\n 0 " \o q1 \o " \"x_q\" \"x_1\" \n}\n" \o others,   \* leaf name without digits
+        "QS " \o q1 \o " { \"*\" }\n\n" \o "{*}[" \o st \o "]\n{\n 0 " \o q1 \o " \"x_0\" \"x_9\" \n}\n" \o others,   \* pdf ids 0 and beyond the block
+        "QS " \o q1 \o " { \"*\" }\nQS " \o q1 \o " { \"?\" }\n\n" \o "{*}[" \o st \o "]\n \"x_1\"\n" \o others,       \* duplicate question name
+        first("{*}[99]\n \"x_1\"\n"),                                                        \* a state tag no state uses
+        first("{*}[" \o st \o "]\n{\n 0 " \o (IF Len(m.qs) > 0 THEN m.qs[1].name ELSE "Q") \o " 0 0 \n}\n") >>   \* a node that refers to itself
+DocDefects(v) ==
+  {[op |-> "doc", voice |-> Render([v EXCEPT !.dur = WithRaw(v.dur, TreeDefectTexts(v.dur, "dur_", v.quoted)[d])])] : d \in 1..10}
+  \cup UNION { {[op |-> "doc", voice |-> Render([v EXCEPT !.streams[s].model =
+                     WithRaw(v.streams[s].model, TreeDefectTexts(v.streams[s].model, v.streams[s].pre, v.quoted)[d])])] : d \in 1..10}
+              : s \in 1..Len(v.streams) }
+  \cup UNION { {[op |-> "doc", voice |-> Render([v EXCEPT !.streams[s].gv =
+                     WithRaw(v.streams[s].gv, TreeDefectTexts(v.streams[s].gv, "gv_" \o v.streams[s].pre, v.quoted)[d])])] : d \in 1..10}
+              : s \in {s \in 1..Len(v.streams) : v.streams[s].usegv} }
+
 DocBase(k) == LET v == Doc(DocFams[k])  r == Render(v)  bs == Blobs(v)  lay == Layout(bs, 0)
                   hs == HdrSize(r.header)  tsz == ToksSize(r.data) IN
   [id |-> k, kv |-> HeaderKV(v, lay), total |-> hs + tsz,
    cuts |-> <<hs>> \o [i \in 1..Len(lay) |-> hs + lay[i].hi + 1],
    texts |-> [i \in 1..Len(SelectSeq(bs, LAMBDA x : x.toks[1].t = "txt")) |->
                 LET nm == SelectSeq(bs, LAMBDA x : x.toks[1].t = "txt")[i].name  e == LayOf(lay, nm) IN [lo |-> hs + e.lo, hi |-> hs + e.hi]],
-   toks |-> r.data, extra |-> TxtDefects(v, r)]
+   toks |-> r.data,
+   \* complete re-renderings are only enumerated as single faults (they replace the whole file anyway)
+   extra |-> IF Depth = 1 THEN TxtDefects(v, r) \cup DocDefects(v) ELSE TxtDefects(v, r)]
 FileBase == LET j == JsonDeserialize(IOEnv.BASE) IN
   [id |-> 0, kv |-> j.kv, total |-> j.total, cuts |-> j.cuts, texts |-> j.texts, toks |-> <<>>, extra |-> {}]
 Base(k) == IF Mode = "file" THEN FileBase ELSE DocBase(k)
